@@ -19,17 +19,7 @@ from harness.common import Model
 PID = "C10"
 TRANSLATORS = ["T-jumpi", "T-runtest"]
 
-KNOWN = [
-    {
-        "id": "C10-F7-invariant-target-loop-bound",
-        "property": "C10",
-        "what": "loop-bound hits inside invariant-target transactions are never warned: run_target_function runs each target call in a "
-                "private SEVM whose logs.bounded_loops nobody reads; target bump(uint256 n) loops n times, invariant fails when the "
-                "counter reaches K > --loop: halmos prints a clean [PASS] with no LOOP_BOUND warning although setUp(); bump(K); "
-                "invariant ends in Panic(1)",
-        "match": {"kind": "incomplete-not-reported", "family": "invariant"},
-    },
-]
+KNOWN = common.known_for("C10")  # entries live in /verif/known_findings.json
 
 ASSUMPTIONS = [
     "the decision-level theorems are about the function regenerated from SEVM.jumpi; that the interpreter loop applies it at every JUMPI and keeps the visit counters per path is covered by the L3 tie only",
